@@ -70,7 +70,7 @@ func lemma_trackerAddType(t *defaultImportTracker, o gengotypes.TypeName) { t.Ad
 //@   note *defaultImportTracker satisfies the interface contract iface_ImportTracker_AddType / _LocalNameOf (given its representation invariant)
 
 //@ func Namer.Name
-//@   preserves pkg/gengo/snippet.
+//@   preserves pkg/gengo/snippet. pkg/gengo/internal.
 //@   note interface method, ASSUMED for every implementation: producing a name may register an import (state of the namer / its tracker) but stores nothing into a snippet value (for the implementation in /repo, rawNamer.Name, the verified frame is stronger: only the tracker's abstract state changes)
 
 //@ func NewDefaultImportTracker
